@@ -50,10 +50,17 @@ THEOREMS (all proved for all states / schedules, no bounds):
   the cursor are stated positionally (C11_insert_position_law) rather than per API call.
 READINGS of the English (weaker reading taken by the oracle where ambiguous):
   * "touched" = removed, inserted or moved by an edit (being the anchor of insert_before/after does not touch).
-  * position of an iterator whose current node was removed = the gap where it was; a node later inserted
-    exactly into that gap is, in the code and model, NOT yielded (it is "before" the position:
-    Example C11_example_state).  The oracle accepts both behaviours there (`opt` elements), everything else
-    is exact.
+  * position of an iterator whose current node was removed or moved = the gap where it was; "iteration resumes
+    with the node that followed it at its original place", hence a node later inserted exactly into that gap
+    (a new head after the head was removed, the current node re-inserted behind its predecessor, a replacement
+    put into the vacated slot) is BEFORE the position and must not be yielded (Example C11_example_state,
+    theorem fut_ins_detached_gap).  The oracle enforces this exactly (an earlier version accepted both
+    behaviours there and therefore had no replay for seeded/C11-r2m3; tightened after that evaluation).
+    Consequently no node is yielded twice unless an edit moved/re-inserted it behind the position in between.
+  * inserting x directly after itself (the insertion point's value is x: insert_after(x,[x]), append(x) when x
+    is last, insert_before(n,[x]) when x precedes n) is a no-op of the list AND of every iterator: x is not
+    touched; any other insertion of a present node is a move (remove + insert), also when it lands in the
+    same place.
   * Graph.sort moves every node (extend of the sorted order), so a suspended iterator legitimately re-yields
     them; an iterator that already raised StopIteration stays exhausted (generator semantics).
   * a not-yet-started iterator has no position: its future is the list at its first next().
@@ -266,10 +273,10 @@ def run_impl(sched: dict) -> list[dict]:
 # =========================================================================== plain-list specification / oracle
 
 class SpecCursor:
-    """Abstract cursor over the plain list specification: the elements it still has to yield (`fut`), whether
-    it is anchored on a live element / the list head (`anch`), and `opt`: elements inserted exactly at the
-    position of a cursor whose current element was removed — the statement does not say whether those lie
-    "after" or "before" the position, so the oracle accepts both (weaker reading)."""
+    """Abstract cursor over the plain list specification: the elements it still has to yield (`fut`) and whether
+    it is anchored on a live element / the list head (`anch`).  Exact: the statement fixes every yield
+    ("resumes with the node that followed it at its original place" decides the gap of a removed current node:
+    whatever is put there later is before the position).  `opt` is kept empty (older replays print it)."""
 
     def __init__(self, spec, fwd):
         self.spec, self.fwd = spec, fwd
@@ -308,12 +315,11 @@ class SpecCursor:
         if self.anch:
             if kv >= j:
                 self.fut.insert(kv - j, x)
-        else:
-            lo = j - len(self.opt)
-            if kv > j:
-                self.fut.insert(kv - j, x)
-            elif kv >= lo:
-                self.opt.insert(kv - lo, x)
+        elif kv > j:
+            # the current node was removed/moved: the position is the gap it left, iteration "resumes with the
+            # node that followed it at its original place" (fut[0]); a node put into that gap (kv == j) or
+            # earlier lies BEFORE the position and must never be yielded by this iterator
+            self.fut.insert(kv - j, x)
 
     # ---- checking a step of the implementation
     def accepts(self, x):
